@@ -1,7 +1,7 @@
 """Small recorded-run generator shared by C17 / C19 (/ C18).
 
 A *spec* is a JSON-able description of
-  * a small OpenMDAO model: an optional IndepVarComp, 2-4 explicit components with closed-form linear/quadratic math
+  * a small OpenMDAO model: an optional IndepVarComp, 2-4 explicit components with closed-form math (linear + sine term)
     (some of them inside a plain group ``G``), an optional coupled pair inside group ``cyc`` under NonlinearBlockGS or
     Newton, a final scalar objective component, units on some variables, promoted names;
   * a driver (plain Driver / DOEDriver(ListGenerator) / ScipyOptimizeDriver(SLSQP));
@@ -150,7 +150,7 @@ def comp_eval(c, invals):
             r, _ = _red(np.asarray(invals[i], dtype=float).ravel(), m)
             val = val + (w / Q) * r
         r0, _ = _red(np.asarray(invals[0], dtype=float).ravel(), m)
-        val = val + (o['q'] / (4 * Q)) * r0 * r0
+        val = val + (o['q'] / Q) * np.sin(r0)            # bounded nonlinearity: magnitudes stay moderate along the chain
         outs.append(val)
     return outs
 
@@ -187,7 +187,7 @@ def make_linquad(c):
                     _, J = _red(np.asarray(inputs[v['n']]).ravel(), m)
                     d = (w / Q) * J
                     if i == 0:
-                        d = d + (2 * o['q'] / (4 * Q)) * r0[:, None] * J
+                        d = d + (o['q'] / Q) * np.cos(r0)[:, None] * J
                     partials[o['n'], v['n']] = d
     return LinQuad()
 
